@@ -7,7 +7,7 @@ from hypothesis import strategies as st
 from .. import gen, oracle as O, ps
 from ..pyxshim import ShimOutOfBounds, shim_gap
 from ..env import HarnessError
-from ..runner import HypPhase, EnumPhase
+from ..runner import HypPhase, EnumPhase, watchdog
 from .c10 import pw_arrays
 from .c11 import df_arrays
 
@@ -125,7 +125,8 @@ def nontrivial(case):
 def _run(fn, *a):
     """(kind, payload): ('ok', result) | ('exc', type name)"""
     try:
-        return ("ok", fn(*a))
+        with watchdog():
+            return ("ok", fn(*a))
     except ShimOutOfBounds as e:
         return ("oob", str(e))
     except Exception as e:
